@@ -1,0 +1,20 @@
+//go:build verif
+
+// Verification hooks (read-only): compiled only with -tags verif.
+
+package obfs3
+
+import "net"
+
+// VerifRxBufLen returns the number of bytes currently held in the handshake-time receive
+// buffer of an obfs3 connection (-1: not an obfs3 connection, -2: buffer already released).
+func VerifRxBufLen(c net.Conn) int {
+	oc, ok := c.(*obfs3Conn)
+	if !ok {
+		return -1
+	}
+	if oc.rxBuf == nil {
+		return -2
+	}
+	return oc.rxBuf.Len()
+}
